@@ -189,19 +189,27 @@ func genStats(rt *rapid.T, classes []uint32, now time.Time) (*iscc.PreviousExecu
 		}
 	}
 	maxSamples := rapid.SampledFrom([]int{2, 4, 8, 12}).Draw(rt, "maxSamples")
+	// The PageRank computation proper only runs when the largest size
+	// class has a success and no smaller one lacks samples: make every
+	// listed size class have samples in half of the cases.
+	rich := rapid.Bool().Draw(rt, "everyClassHasSamples")
 	for _, c := range candidates {
 		limit := 2
 		if !inList[c] {
 			limit = 7
 		}
-		if rapid.IntRange(0, 9).Draw(rt, "bucketPresent") < limit {
+		if rapid.IntRange(0, 9).Draw(rt, "bucketPresent") < limit && !(rich && inList[c]) {
 			continue
 		}
 		if !inList[c] {
 			labels = append(labels, "stored:class-outside-list")
 		}
 		b := &iscc.PerSizeClassStats{}
-		for i := rapid.IntRange(0, maxSamples).Draw(rt, "nSamples"); i > 0; i-- {
+		minSamples := 0
+		if rich && inList[c] {
+			minSamples = 1
+		}
+		for i := rapid.IntRange(minSamples, maxSamples).Draw(rt, "nSamples"); i > 0; i-- {
 			b.PreviousExecutions = append(b.PreviousExecutions, genPreviousExecution(rt))
 		}
 		var l string
@@ -213,7 +221,7 @@ func genStats(rt *rapid.T, classes []uint32, now time.Time) (*iscc.PreviousExecu
 	}
 	// Most of the interesting code only runs once the action succeeded
 	// on the largest size class.
-	if rapid.IntRange(0, 9).Draw(rt, "largestSucceeded") < 7 {
+	if rapid.IntRange(0, 9).Draw(rt, "largestSucceeded") < 7 || rich {
 		b := st.SizeClasses[largest]
 		if b == nil {
 			b = &iscc.PerSizeClassStats{}
